@@ -564,3 +564,77 @@ func VerifC01FanInArrayStream() {
 	vassert(rerr == nil, "the run returns")
 	vassert(out["count"] == n+2, "the fan-in node receives every chunk of both predecessors")
 }
+
+// A chain with a multi-choice branch (value or stream condition): the condition names each of its two targets with
+// true, names it with false, or leaves it out; exactly the targets named with true run, and the chain returns the
+// merge of their outputs.
+func VerifC01ChainMultiChoice() {
+	ctx := context.Background()
+	vcfg("fifo", 1)
+	vcfg("selectfirst", 1)
+	targets := []string{"x", "y"}
+	sel := map[string]int{}
+	nTrue := 0
+	for _, t := range targets {
+		sel[t] = vchoose("sel_"+t, 3) // 0 left out, 1 true, 2 false
+		if sel[t] == 1 {
+			nTrue++
+		}
+	}
+	answer := func() map[string]bool {
+		m := map[string]bool{}
+		for _, t := range targets {
+			switch sel[t] {
+			case 1:
+				m[t] = true
+			case 2:
+				m[t] = false
+			}
+		}
+		return m
+	}
+	counts := map[string]int{}
+	node := func(key string) *Lambda {
+		return InvokableLambda(func(ctx context.Context, in map[string]any) (map[string]any, error) {
+			vMu.Lock()
+			counts[key]++
+			vMu.Unlock()
+			return map[string]any{key: vsymUF("f_"+key, vFold(in))}, nil
+		})
+	}
+	var cb *ChainBranch
+	if vchoose("streamCond", 2) == 1 {
+		cb = NewStreamChainMultiBranch(func(ctx context.Context, in *schema.StreamReader[map[string]any]) (map[string]bool, error) {
+			in.Close()
+			return answer(), nil
+		})
+	} else {
+		cb = NewChainMultiBranch(func(ctx context.Context, in map[string]any) (map[string]bool, error) { return answer(), nil })
+	}
+	cb.AddLambda("x", node("x"))
+	cb.AddLambda("y", node("y"))
+	ch := NewChain[map[string]any, map[string]any]()
+	ch.AppendLambda(node("a"))
+	ch.AppendBranch(cb)
+	r, err := ch.Compile(ctx)
+	vassert(err == nil, "chain with a multi-choice branch compiles")
+	x := vsymInt("x")
+	in := map[string]any{"in": x}
+	out, rerr := r.Invoke(ctx, in)
+	if nTrue == 0 {
+		vassert(rerr != nil, "a multi-choice branch that selects nothing leaves the chain without a result: the run fails")
+		return
+	}
+	vassert(rerr == nil, "the chain runs")
+	av := map[string]any{"a": vsymUF("f_a", vFold(in))}
+	want := map[string]any{}
+	for _, t := range targets {
+		if sel[t] == 1 {
+			want[t] = vsymUF("f_"+t, vFold(av))
+			vassert(counts[t] == 1, "a target the condition names with true runs exactly once: "+t)
+		} else {
+			vassert(counts[t] == 0, "a target the condition leaves out or names with false does not run: "+t)
+		}
+	}
+	vassert(vMapEq(out, want), "the chain returns the merge of exactly the selected targets' outputs")
+}
